@@ -104,6 +104,26 @@ CLAIMED["C09"]["text"] += (" The single-call API is part of the same step functi
                            "single-call operations panics either; the model keeps the analysed call after a write that fails past the analysis, as the code does (found by the correspondence "
                            "runs on into_receive after an overflowing write).")
 
+CODE2 = (" The code itself is part of the development: tools/rs2coq2.py regenerates theories/Gen2.v on every run from the current sources (%s), in state-passing style, and "
+         "proofs/Gen2_equiv_*.v prove that translation equivalent to the model these theorems are about, for all arguments (%s); a change of the translated code that is not an "
+         "equivalent rewrite breaks that proof obligation of this property. A function rewritten into syntax outside the translated subset, or with a changed interface, is replaced by its "
+         "translation at the pinned commit and reported (facts.translator2_fallbacks); it is then tied by the correspondence check only.")
+CLAIMED["C07"]["text"] += CODE2 % ("util.rs find_crlf, every method of chunk.rs incl. the parse_input loop, body.rs read_chunked / read",
+                                   "c07_code_parse_input, c07_code_parse_input_frame, c07_code_read_equiv; c07_code_step is c07_step stated about the translated BodyReader::read: any window, any output buffer, "
+                                   "the output written at the front of the buffer and nothing else touched")
+CLAIMED["C12"]["text"] += CODE2 % ("chunk.rs, body.rs BodyReader::read with all four framings",
+                                   "c12_code_decoder_no_panic, c12_code_read_no_panic: the translated decoder and reader never panic from a between-calls state on any bytes and any buffer, and fail exactly when the model fails")
+CLAIMED["C08"]["text"] += CODE2 % ("body.rs BodyReader::read, read_limit, read_unlimit, is_ended, body_mode",
+                                   "c08_code_read_equiv, c08_code_len_step, c08_code_close_step: exactly min(input, room, remaining) resp. min(input, room) bytes copied to the front of the buffer, remaining length counted down by that")
+CLAIMED["C06"]["text"] += CODE2 % ("body.rs for_response and header_defined complete, util.rs compare_lowercase_ascii with its loop; the header lookup is a function parameter",
+                                   "c06_code_for_response_whole, c06_code_header_defined, c06_code_compare_lowercase: plain equalities with the model's functions, which c06_mode_spec proves equal to the statement's rule")
+CLAIMED["C04"]["text"] += CODE2 % ("body.rs BodyWriter::write, consume_direct_write, left_to_send",
+                                   "c04_code_write_equiv, c04_code_sized_write (min of three, verbatim, appended, counted down, ended exactly at zero, the assert! cannot fire), c04_code_direct_equiv")
+CLAIMED["C03"]["text"] += CODE2 % ("body.rs BodyWriter::write with its while loop, write_chunk, finish",
+                                   "c03_code_write_equiv, c03_code_write_ok, c03_code_write_chunk, c03_code_finish")
+for _p in ("C03", "C04", "C06", "C07", "C08", "C12"):
+    CLAIMED[_p]["technique"] += " + the code's own functions translated to Gallina on every run and proved equivalent to the model"
+
 NOT_YET = {}
 ALL = ["C%02d" % i for i in range(1, 21)]
 
